@@ -11,8 +11,11 @@ import (
 	"encoding/json"
 	"fmt"
 	"os"
+	"runtime"
+	"runtime/pprof"
 	"strconv"
 	"sync"
+	"time"
 
 	"verif/harness/lib"
 )
@@ -27,15 +30,15 @@ type replayBody struct {
 	Scenario *Scenario `json:"scenario,omitempty"`
 }
 
-// compare sends the scenario's lines to the Lean driver and diffs the action lists.
-func compare(res *lib.Result, drv *lib.Driver, w *World, sc *Scenario, mode string) (rules map[string]int, ok bool) {
+// compare diffs the Lean driver's answers `outs` (one per line of w.Lines) with the real machines'
+// action lists.
+func compare(res *lib.Result, outs []string, w *World, sc *Scenario, mode string) (rules map[string]int, ok bool) {
 	rules = map[string]int{}
-	outs, err := drv.AskAll(w.Lines)
-	if err != nil {
-		res.Note("driver: %v", err)
+	nn := len(sc.Nodes)
+	if len(outs) != len(w.Lines) {
+		res.Note("driver: %d answers for %d lines", len(outs), len(w.Lines))
 		return rules, false
 	}
-	nn := len(sc.Nodes)
 	for i := 0; i < nn; i++ {
 		if outs[i] != "ok" {
 			res.Mismatch(lib.Mismatch{Sig: "driver-rejects-config", Input: w.Lines[i], Model: outs[i]})
@@ -59,6 +62,16 @@ func compare(res *lib.Result, drv *lib.Driver, w *World, sc *Scenario, mode stri
 	return rules, true
 }
 
+// askCompare sends one history to the driver and compares.
+func askCompare(res *lib.Result, drv *lib.Driver, w *World, sc *Scenario, mode string) (map[string]int, bool) {
+	outs, err := drv.AskAll(w.Lines)
+	if err != nil {
+		res.Note("driver: %v", err)
+		return map[string]int{}, false
+	}
+	return compare(res, outs, w, sc, mode)
+}
+
 func report(res *lib.Result, w *World, sc *Scenario, mode string) {
 	for _, v := range w.Viols {
 		cut := *sc
@@ -75,10 +88,30 @@ func report(res *lib.Result, w *World, sc *Scenario, mode string) {
 
 func main() {
 	f := lib.ParseFlags()
-	res := lib.NewResult("case = one input delivered to a real tendermint state machine (network scenarios with n validators, " +
-		"Byzantine power <= f, adversarial scheduling; plus undisciplined single-machine fuzz histories; plus one case per " +
-		"total voting power whose thresholds are measured); non-trivial = the machine returned at least one action, or a threshold case with N > 0")
+	if pf := os.Getenv("C12_CPUPROF"); pf != "" {
+		if fh, e := os.Create(pf); e == nil {
+			pprof.StartCPUProfile(fh)
+			defer pprof.StopCPUProfile()
+		}
+	}
+	res := lib.NewResult("case = one generated history run on real tendermint state machines and on the Lean model: a network scenario " +
+		"(n validators, Byzantine power <= f, adversarial scheduling of deliveries/timeouts/duplicates/losses/Byzantine messages, 2-3 heights), " +
+		"an undisciplined single-machine fuzz history, or one total voting power whose thresholds are measured; every input of a history is " +
+		"compared (correspondence count = inputs); non-trivial = the history made a machine emit at least one action, or a threshold case with N > 0")
 	r := lib.NewRNG(f.Seed)
+
+	startWatchdog(5*time.Second, func(w *World) {
+		cut := *w.sc
+		cut.Events = append(append([]Event(nil), w.sc.Events[:min(len(w.sc.Events), len(w.Outs))]...), Event{M: w.PendingM, In: *w.Pending})
+		mode := "sim"
+		if !cut.Disciplined {
+			mode = "fuzz"
+		}
+		res.Violate(lib.Violation{Sig: "state-machine-does-not-terminate",
+			What:   fmt.Sprintf("machine %d did not return from input %q within 5s (rule loop without fixed point?)", w.PendingM, w.Pending.Line(w.PendingM)),
+			Replay: replayBody{Mode: mode, Scenario: &cut}})
+		lib.Finish(f, res)
+	})
 
 	if f.Replay != "" {
 		runReplay(f, res)
@@ -91,11 +124,12 @@ func main() {
 		lib.Finish(f, res)
 	}
 	runThresholds(f, res, r.Fork(1000003), drv, nil)
+	runLead(res, drv)
 	drv.Close()
 
-	nSim := f.Scale(2500, 60000)
-	nFuzz := f.Scale(1500, 40000)
-	workers := 8
+	nSim := f.Scale(16000, 250000)
+	nFuzz := f.Scale(10000, 150000)
+	workers := max(4, min(14, runtime.NumCPU()-2))
 	var wg sync.WaitGroup
 	var mu sync.Mutex
 	agg := map[string]int{}
@@ -112,51 +146,84 @@ func main() {
 				return
 			}
 			defer d.Close()
+			type item struct {
+				j     int
+				sc    *Scenario
+				w     *World
+				mode  string
+				label string
+			}
+			flush := func(batch []item) {
+				var lines []string
+				for _, it := range batch {
+					lines = append(lines, it.w.Lines...)
+				}
+				outs, err := d.AskAll(lines)
+				if err != nil {
+					res.Note("driver: %v", err)
+					return
+				}
+				off := 0
+				for _, it := range batch {
+					sc, w, mode, j := it.sc, it.w, it.mode, it.j
+					rules, _ := compare(res, outs[off:off+len(w.Lines)], w, sc, mode)
+					off += len(w.Lines)
+					report(res, w, sc, mode)
+					if mode == "sim" && !w.Admissible {
+						res.Note("harness bug: generated an inadmissible history (%s)", w.Why)
+					}
+					nontrivial := 0
+					for _, o := range w.Outs {
+						if o != "-" {
+							nontrivial++
+						}
+					}
+					res.Case(mode+strconv.Itoa(j), nontrivial > 0)
+					mu.Lock()
+					for k, v := range rules {
+						agg[mode+"/rule-"+k] += v
+					}
+					for k, v := range w.hits {
+						agg[mode+"/"+k] += v
+					}
+					agg[mode+"/inputs-delivered"] += len(w.Outs)
+					agg[mode+"/inputs-with-actions"] += nontrivial
+					if mode == "sim" {
+						agg["sim/set-"+it.label]++
+						agg[fmt.Sprintf("sim/byzantine=%d", len(sc.Byz))]++
+						maxH := uint64(0)
+						for _, v := range w.views {
+							if v.height-sc.Nodes[0].Height > maxH {
+								maxH = v.height - sc.Nodes[0].Height
+							}
+						}
+						agg[fmt.Sprintf("sim/heights-committed=%d", maxH)]++
+					}
+					mu.Unlock()
+					if j%3000 == 0 {
+						res.Sample(6, map[string]any{"mode": mode, "set": it.label, "byz": sc.Byz, "events": len(sc.Events),
+							"first_lines": w.Lines[:min(len(w.Lines), 12)], "first_outputs": w.Outs[:min(len(w.Outs), 8)]})
+					}
+				}
+			}
+			var batch []item
 			for j := range jobs {
-				var sc *Scenario
-				var w *World
-				mode := "sim"
-				label := ""
+				it := item{j: j, mode: "sim"}
 				if j < nSim {
 					s := genScenario(r.Fork(uint64(j)), f.Thorough())
 					s.run()
-					sc, w, label = s.sc, s.w, s.label
+					it.sc, it.w, it.label = s.sc, s.w, s.label
 				} else {
-					mode = "fuzz"
-					sc, w = genFuzz(r.Fork(uint64(j)), f.Thorough())
+					it.mode = "fuzz"
+					it.sc, it.w = genFuzz(r.Fork(uint64(j)), f.Thorough())
 				}
-				rules, _ := compare(res, d, w, sc, mode)
-				report(res, w, sc, mode)
-				if mode == "sim" && !w.Admissible {
-					res.Note("harness bug: generated an inadmissible history (%s)", w.Why)
-				}
-				mu.Lock()
-				for k, v := range rules {
-					agg[mode+"/rule-"+k] += v
-				}
-				for k, v := range w.hits {
-					agg[mode+"/"+k] += v
-				}
-				if mode == "sim" {
-					agg["sim/set-"+label]++
-					agg[fmt.Sprintf("sim/byzantine=%d", len(sc.Byz))]++
-					maxH := uint64(0)
-					for _, v := range w.views {
-						if v.height-sc.Nodes[0].Height > maxH {
-							maxH = v.height - sc.Nodes[0].Height
-						}
-					}
-					agg[fmt.Sprintf("sim/heights-committed=%d", maxH)]++
-				}
-				mu.Unlock()
-				for i, o := range w.Outs {
-					res.Case(mode+strconv.Itoa(j)+"/"+strconv.Itoa(i), o != "-")
-				}
-				if j%400 == 0 {
-					res.Sample(6, map[string]any{"mode": mode, "set": label, "byz": sc.Byz, "events": len(sc.Events),
-						"first_lines": w.Lines[:min(len(w.Lines), 12)], "first_outputs": w.Outs[:min(len(w.Outs), 8)]})
+				batch = append(batch, it)
+				if len(batch) >= 64 {
+					flush(batch)
+					batch = batch[:0]
 				}
 			}
+			flush(batch)
 		}()
 	}
 	for j := 0; j < nSim+nFuzz; j++ {
@@ -167,6 +234,7 @@ func main() {
 	for k, v := range agg {
 		res.HitN(k, v)
 	}
+	pprof.StopCPUProfile()
 	lib.Finish(f, res)
 }
 
@@ -206,7 +274,7 @@ func runReplay(f lib.Flags, res *lib.Result) {
 			return
 		}
 		w := Replay(body.Scenario)
-		compare(res, drv, w, body.Scenario, body.Mode)
+		askCompare(res, drv, w, body.Scenario, body.Mode)
 		for i, o := range w.Outs {
 			res.Case("replay/"+strconv.Itoa(i), o != "-")
 		}
